@@ -19,14 +19,14 @@ var propC05 = &pProp{
 	bias:   specBias{nullableLoops: 0, leftRec: 15, states: 100, preds: 75, actions: 85, throws: 20, optimized: 40, display: 5, unicode: 30, stateBias: true, lrDirect: true},
 	tier: func(tier string) pParams {
 		if tier == "thorough" {
-			return pParams{grammars: 600, inputs: 10, optSets: 3, extra: 6}
+			return pParams{batches: 8, grammars: 500, inputs: 10, optSets: 3, extra: 6}
 		}
-		return pParams{grammars: 64, inputs: 5, optSets: 2, extra: 3}
+		return pParams{grammars: 128, inputs: 6, optSets: 2, extra: 3}
 	},
 	accept: func(gp *genParser) bool { return gp.G.HasKind(gen.State) },
 	mkReqs: func(r *rng, gp *genParser, p pParams) []*parsersim.Request {
 		var reqs []*parsersim.Request
-		for ii, in := range drawInputs(r, gp.G, p.inputs, 24) {
+		for ii, in := range drawInputs(r, gp.G, p.inputs, 40) {
 			for k := 0; k < p.optSets; k++ {
 				o := drawOpts(r, gp, 0, 0)
 				o.Memoize = false
